@@ -153,11 +153,15 @@ def gen(rng, tier):
             r_src = rng.random()
             if r_src < 0.2:
                 sh.append({"op": "passes", "files": {"src/Ctl%d.java" % k: spring_unit(rng) for k in range(rng.choice([1, 2]))}, "src": "spring"})
+                if rng.random() < (0.12 if tier == "quick" else 0.03):
+                    sh[-1]["cli"] = True
             elif r_src < 0.8 or not fx:
                 files = {}
                 for k in range(rng.choice([1, 1, 2])):
                     files["src/U%d.java" % k] = unit(rng)
                 sh.append({"op": "passes", "files": files, "src": "grammar"})
+                if rng.random() < (0.12 if tier == "quick" else 0.03):
+                    sh[-1]["cli"] = True        # also through the commands themselves (coca analysis | bs | api | todo | refactor), fresh processes
             else:
                 f = rng.choice(fx)
                 try:
